@@ -4,6 +4,14 @@ import json, os
 ROOT = os.path.dirname(os.path.dirname(os.path.abspath(__file__)))
 
 CHECKS = {
+ 'C12': dict(level='exploration', design='DESIGN.md §5 C12',
+   technique='CrossHair symbolic execution of the real library call wrapper twice per symbolic integral n (int spelling vs float spelling from a table indexed by n), z3 decides the case split; results, failure behaviour and post-call arguments compared',
+   text='For every numeric parameter of every library function that has one (read from the live argument models), and for numbers flowing as plain values through operators, stringification, JSON and value-taking functions, the call is executed with all numbers spelled as ints and as floats for a symbolic integral n over the parameter range; confirmed means result, failure value, debug log count and post-call argument state agree for every n in the range.',
+   note='Trusted: CrossHair/z3. Float spellings come from a concrete table indexed by the symbolic n (symbolic floats never confirm in CrossHair). Other arguments are fixed representative values.'),
+ 'C15': dict(level='exploration', design='DESIGN.md §5 C15',
+   technique='CrossHair symbolic execution of array/object/string library functions from a symbolic container pre-state (aliasing, lengths, elements, indices, counts, values symbolic), differential against reference list/dict/str models',
+   text='One condition per library function layout (47 layouts of the 39 functions) and per pair of same-family functions with a mutator: from an arbitrary symbolic pre-state of the aliased container pool, the returned value, every container through every alias, and freshness/identity of the result must equal the reference model, including out-of-range and float-spelled indices. One step from an arbitrary state covers that step within any longer history of these stateless functions.',
+   note='Trusted: reference models vf/hlib/c15ref.py, CrossHair list/dict/str models, z3. Not applicable clauses: regexEscape/URL-encoding exactness (C boundaries).'),
  'C05': dict(level='exploration', design='DESIGN.md §5 C05',
    technique='CrossHair symbolic execution of evaluate_expression: typed symbolic operands per operator/kind pair and per library function (wrong-kind vectors and valid-kind symbolic arguments), z3 decides each path',
    text='For each arithmetic operator and ordered pair of operand kinds (unbounded symbolic ints, bools, short strings, solver-indexed adversarial floats incl. inf/nan/-0.0, 400-digit ints, boundary datetimes) CrossHair proves over all values that evaluate_expression returns a BareScript value or raises BareScriptRuntimeError; for each library function with an argument model it proves that every wrong-kind/missing/surplus argument vector yields the documented failure value with exactly one debug log line, and that valid-kind symbolic arguments never let a host exception escape.',
